@@ -254,6 +254,14 @@ fn n_sources(spec: &ConsumerSpec) -> usize {
     per * if spec.twin { 2 } else { 1 }
 }
 
+/// `--no-big` (argv, because Miri does not forward the host environment) keeps every vector small (used by the Miri pass that has aliasing checks on:
+/// imbl 5.0.0's FocusMut violates Tree Borrows on multi-chunk vectors, which is the dependency's
+/// matter and would drown everything else).
+pub static NO_BIG: std::sync::atomic::AtomicBool = std::sync::atomic::AtomicBool::new(false);
+fn no_big() -> bool {
+    NO_BIG.load(std::sync::atomic::Ordering::Relaxed)
+}
+
 pub fn gen_case(prop: &str, rng: &mut Rng) -> Case {
     let p = profile(prop);
     let n_steps = match rng.below(20) {
@@ -265,7 +273,7 @@ pub fn gen_case(prop: &str, rng: &mut Rng) -> Case {
     let mut sh = Shadow { len: 0, tx: None, consumers: 0, sources: 0, dropped: false, next_uid: 1, seen: Vec::new() };
     // mostly small vectors; one run in twelve starts beyond imbl's inline / single-chunk
     // representations (different code paths for clone, ptr_eq, split, append)
-    let big = rng.chance(1, 12);
+    let big = rng.chance(1, 12) && !no_big();
     let initial: Vec<V> = if big {
         (0..12 + rng.below(70)).map(|_| value(&mut sh, rng)).collect()
     } else if rng.chance(1, 2) {
